@@ -33,6 +33,9 @@ PIECES = {
     "mk_at": "def mk_at(*items):\n    o = AT(a=1)\n    o.c.extend(items)\n    return o\n",
     "DC2": "@dataclass\nclass DC2:\n    x: object\n    y: int = 0\n    z: list = field(default_factory=list)\n",
     "KEYNAME": "KEYNAME = 'kn'\n",
+    # one type, two kinds of repr: code for small numbers, not code otherwise (the choice raw code / HasRepr belongs to the value)
+    "Flk": ("class Flk:\n    def __init__(self, n):\n        self.n = n\n    def __eq__(self, o):\n        return self.n == o.n if isinstance(o, Flk) else NotImplemented\n"
+            "    def __hash__(self):\n        return 1\n    def __repr__(self):\n        return 'Flk(%d)' % self.n if self.n < 5 else '<Flk %d>' % self.n\n"),
     "NT": "from collections import namedtuple\nNT = namedtuple('NT', 'a,b')\n",
     "NTD": "from collections import namedtuple\nNTD = namedtuple('NTD', 'a,b', defaults=[9])\n",
     "defaultdict": "from collections import defaultdict\n",
@@ -105,7 +108,7 @@ A_FULL = (
     + [V("NT(a=1, b=2)", "nt", True, None), V("NTD(a=1)", "nt", True, None), V("NTD(a=1, b=2)", "nt", True, None)]
     + [V("defaultdict(list, {'a': [1]})", "dd", False, None), V("defaultdict(list)", "dd", False, None),
        V("defaultdict(int, {1: 2})", "dd", False, None)]
-    + [V("Opaque(1)", "opaque", True, None)]
+    + [V("Opaque(1)", "opaque", True, None), V("Flk(1)", "opaque", True, None), V("Flk(7)", "opaque", True, None), V("[Flk(2), Flk(8)]", "opaque", False, None)]
     + [V("mk_pm(3)", "pydantic", False, None), V("mk_pm()", "pydantic", False, None), V("mk_dc(3)", "dc", False, None), V("mk_at(3)", "attrs", False, None)]
 )
 HEAVY = {"pydantic", "attrs", "dd", "opaque"}
